@@ -355,8 +355,12 @@ def explore(run, driver, budget):
             continue
         # fresh processes under different hash seeds
         refs = []
-        for hs in ([0, 1] if budget == "quick" else [0, 1, 12345]):
-            r = child(history, seed, hs)
+        hss = [0, 1] if budget == "quick" else [0, 1, 12345]
+        from concurrent.futures import ThreadPoolExecutor
+
+        with ThreadPoolExecutor(max_workers=len(hss)) as ex:     # the children are processes of their own
+            kids = list(ex.map(lambda h_: child(history, seed, h_), hss))
+        for hs, r in zip(hss, kids):
             if "child_error" in r:
                 run.broken.append("child process failed: " + r["child_error"][-300:])
                 continue
